@@ -58,7 +58,7 @@ WHAT = {
 
 def name(k):
     return "MaxId=%d Threshold=%d Reqs=%d NConns=%d MaxFails=%d MaxConnFails=%d%s" % (
-        k["MaxId"], k["Threshold"], len(k["Reqs"]), k["NConns"], k["MaxFails"], k["MaxConnFails"], " keyspace" if k.get("Ks") else "")
+        k["MaxId"], k["Threshold"], len(k["Reqs"]), k["NConns"], k["MaxFails"], k["MaxConnFails"], (" keyspace" if k.get("Ks") else "") + (" submit-at-timeout" if k.get("SubmitAtTimeout") else ""))
 
 
 def owner_of_invariant(inv):
@@ -464,6 +464,12 @@ def validate_recorded(ctx, pid, consts, n_traces, rep, max_events=60):
 
 def run(ctx, pid):
     rep = Reporter(ctx, pid)
+    from harness.replay import pool as rp
+    sat = rp.submits_at_timeout()           # the design the code under test follows (both are specified, see Pool.tla)
+    ctx.note("replacement_requested_at", "the timeout that finds the threshold reached" if sat else "the next borrow")
+    g = globals()
+    for kn in [x for x in g if x.startswith("K_") and isinstance(g[x], dict)]:
+        g[kn] = dict(g[kn], SubmitAtTimeout=sat)
     if ctx.quick:
         res = tlc_exhaustive(ctx, pid, K_MID, "mid", rep)
         if res is None:
@@ -491,6 +497,8 @@ def run(ctx, pid):
             if tlc_exhaustive(ctx, pid, dict(K_MID3, Ks=True), "mid3ks", rep, coverage=False) is None:
                 return rep.finish()
             n += replay_graph(ctx, pid, K_KS3, rep, label="graph_keyspace")
+            if tlc_exhaustive(ctx, pid, dict(K_MID3, SubmitAtTimeout=not sat), "mid3other", rep, coverage=False) is None:
+                return rep.finish()          # the other design satisfies the same invariants
             validate_recorded(ctx, pid, dict(K_MID3, Ks=True), 600, rep)
         validate_recorded(ctx, pid, K_MID3, 1500, rep)
         validate_recorded(ctx, pid, K_BIG, 1500, rep, max_events=80)
